@@ -17,6 +17,89 @@ ATOMS = [b"", b"a", b"b", b"a\tb", b"a\t", b"a b"]
 SPECS = [None, "1", "2", "1-", "-2", "2,1", "1,3-", "-1,3-", "1,3", "2-", "3-,1"]   # incl. lists with a hole that start at field 1 and are open-ended
 
 
+M64 = (1 << 64) - 1
+
+
+def murmur64a(data, seed):
+    """reference MurmurHash64A (used only to CHOOSE lines by the bucket they will land in; the verdict never depends on it)"""
+    m, r = 0xc6a4a7935bd1e995, 47
+    h = (seed ^ (len(data) * m)) & M64
+    n8 = len(data) // 8
+    for i in range(n8):
+        k = int.from_bytes(data[8 * i:8 * i + 8], "little")
+        k = (k * m) & M64
+        k ^= k >> r
+        k = (k * m) & M64
+        h ^= k
+        h = (h * m) & M64
+    tail = data[8 * n8:]
+    if tail:
+        h ^= int.from_bytes(tail, "little")
+        h = (h * m) & M64
+    h ^= h >> r
+    h = (h * m) & M64
+    h ^= h >> r
+    return h
+
+
+def rollover_inputs(rng, per_size):
+    """Inputs built for ONE doubling N -> 2N of the seen-set with a long occupied run at bucket 0 and wrapped entries behind it:
+    one line per home bucket 0..r-1 (r up to N/2 + 8, so far beyond any small fixed buffer), a cluster of lines whose home is among the
+    last t buckets (more lines than buckets, so some wrap around to the end of the run), each with a random bit N (moves to the upper
+    half or stays), fillers up to the growth threshold 3N/4, one more distinct line to force the doubling, then every line again."""
+    by = {}
+    sizes = (128, 256, 512, 1024)
+    maxbits = 2 * sizes[-1]
+    i = 0
+    need = maxbits * 3
+    while sum(len(v) for v in by.values()) < need and i < 400000:
+        l = b"sentence number %d" % i
+        i += 1
+        hb = murmur64a(l, 1) % maxbits
+        if len(by.setdefault(hb, [])) < 3:
+            by[hb].append(l)
+    out = []
+    for N in sizes:
+        T = (3 * N) // 4
+        for _ in range(per_size):
+            used, keys = set(), []
+
+            def take(home, bitN):
+                # a line whose hash is = home (mod N) with the wanted bit N; the higher bits are whatever the pool has
+                cands = [l for hb in range(home + (N if bitN else 0), maxbits, 2 * N) for l in by.get(hb, []) if l not in used]
+                if not cands:
+                    return
+                l = rng.choice(cands)
+                used.add(l)
+                keys.append(l)
+            r = rng.choice([40, 63, 64, 65, 66, 70, 90, N // 2, N // 2 + 8])
+            t = rng.choice([1, 2, 3, 5])
+            w = rng.choice([1, 2, 3, 4])
+            r = min(r, T - t - w - 2)
+            run = list(range(r))
+            tailhomes = [N - 1 - rng.randrange(t) for _ in range(t + w)] + list(range(N - t, N))
+            order = rng.choice(["run-first", "tail-first", "mixed"])
+            plan = [("run", b) for b in run] + [("tail", b) for b in tailhomes]
+            if order == "tail-first":
+                plan = plan[len(run):] + plan[:len(run)]
+            elif order == "mixed":
+                rng.shuffle(plan)
+            for kind, b in plan:
+                take(b, rng.random() < 0.5)
+            mid = list(range(r + w + 3, N - t - 1))
+            rng.shuffle(mid)
+            for b in mid:
+                if len(keys) >= T:
+                    break
+                take(b, rng.random() < 0.5)
+            keys = keys[:T]
+            trigger = b"the line that makes the table grow %d" % len(out)
+            again = keys[:]
+            rng.shuffle(again)
+            out.append((N, r, t, w, order, keys + [trigger] + again))
+    return out
+
+
 def args_for(spec, d):
     a = []
     if spec is not None:
@@ -112,6 +195,28 @@ def run(ctx):
         pvlib.report_violation(ctx, f"dedupe-large:{n}", {"argv": ["dedupe"], "generator": f"k0..k{n - 1} then 2000 repeats (seed {ctx.seed})",
                                "status": st, "first_diff_line": k},
                                summary=f"dedupe on {n} distinct keys + repeats: output differs from the distinct keys at line {k} (status {st})")
+    # one doubling with a long run of occupied buckets at bucket 0 and wrapped entries behind it (lines chosen by their MurmurHash64A)
+    ro = rollover_inputs(rng, 12 if ctx.tier == "quick" else 120)
+    for N, r, t, w, order, ls in ro:
+        fieldmode = rng.random() < 0.3          # -f 1: the key is the first field, hashed with the same seed; the rest of the line varies
+        if fieldmode:
+            ls = [l + b"\tcolumn %d" % j for j, l in enumerate(ls)]
+        data = b"".join(l + b"\n" for l in ls)
+        argv = ["-f", "1"] if fieldmode else []
+        st, out, err = pvlib.run_tool([ctx.bin("dedupe")] + argv, data, env=pvlib.san_env(), timeout=120)
+        ctx.count("dedupe.rollover", 1, [(N, r, t, w, order, fieldmode)])
+        nd = (len(ls) + 1) // 2
+        want = b"".join(l + b"\n" for l in ls[:nd])
+        if st != 0 or out != want:
+            ol = out.split(b"\n")[:-1]
+            extra = [l for l in set(ol) if ol.count(l) > 1][:3]
+            pvlib.report_violation(ctx, f"dedupe-rollover:N={N},run={r},tail={t}+{w},{order}", {"argv": ["dedupe"] + argv, "stdin_hex": hx(data), "status": st,
+                                   "lines_out": len(ol), "distinct_lines_in": nd, "repeated_in_output": [x.decode(errors="replace") for x in extra]},
+                                   summary=f"dedupe {argv} on {nd} distinct lines (chosen so that the seen-set has a run of {r} occupied buckets at bucket 0 and wrapped "
+                                           f"entries when it doubles from {N} buckets) followed by all of them again: {len(ol)} lines out, expected {nd}"
+                                           + (f"; {extra[0]!r} is written twice" if extra else "") + f" (status {st})")
+            break
+    ctx.cov["rollover_inputs"] = len(ro)
     # one line longer than the reader's buffer after two doublings (> 2 MiB, so the buffer itself moves from malloc to mmap)
     bigl = bytes(97 + (i * 7 + i // 251) % 26 for i in range(3_000_000))
     data = bigl + b"\nshort\n" + bigl + b"\nshort\n"
@@ -123,6 +228,7 @@ def run(ctx):
                                "output_bytes": len(out), "first_diff_byte": k},
                                summary=f"dedupe on a 3,000,000-byte line given twice (pipe): output has {len(out)} bytes, expected {len(bigl) + 7}; first difference at byte {k} (status {st})")
     # parallel mode
+    corr_break = None
     for _ in range(40 if ctx.tier == "quick" else 400):
         k = rng.randrange(0, 12)
         a = [rng.choice([b"a", b"b", b"c", b"d", b"a\tx"]) for _ in range(k)]
@@ -148,10 +254,13 @@ def run(ctx):
                                    "got": got, "spec": m[1]},
                                    summary=f"dedupe -p on {a!r} / {b!r}: outputs {o0!r} / {o1!r} differ from the pair specification")
             break
-        if got != m[0]:
-            pvlib.report_violation(ctx, "corr:tools.dedupepar", {"ops": [op], "impl": got, "model": m[0]}, no_input=True,
-                                   summary=f"dedupe -p model/impl differ: {got[:80]} vs {m[0][:80]}")
-            break
+        if got != m[0] and corr_break is None:
+            corr_break = (op, got, m[0])          # keep looking: a balanced case may show the violation itself
+    else:
+        if corr_break:
+            op, got, m0 = corr_break
+            pvlib.report_violation(ctx, "corr:tools.dedupepar", {"ops": [op], "impl": got, "model": m0}, no_input=True,
+                                   summary=f"dedupe -p model/impl differ: {got[:80]} vs {m0[:80]}")
 
 
 def replay(ctx, rp):
